@@ -165,23 +165,25 @@ def parallel_stage(ctx, thorough, protos=None, sflow_filter=None):
 
 def check(ctx, want="C12"):
     thorough = ctx.tier == "thorough"
-    ctx.rule = ("model: Pipeline.tla (receive loop, 2 workers, 3 datagrams (data / template-only / malformed), 3-4 pooled buffers, bounded "
-                "queues, consumer, shutdown, dynamic-worker retirement; 1.1 M states quick, 28 M thorough): PublishedIsOwn, NoUseAfterPut, AtMostOnce, ExactlyOnceIfData, CountsExact, "
-                "NoPhantom, NoPanic; the variants 'buffer returned before decoding', 'encode buffer queued without a copy' and 'queue "
-                "closed without waiting for the receive loop' must each be refuted. Code: the REAL worker functions of the four "
-                "protocols run on their real queues and receive-buffer pool with GOMAXPROCS(1), every worker held at the hooks of "
-                "its loop and released by a seeded scheduler that also plays the receive loop and a lazy producer; at every stop the "
-                "pool is drained, the buffers it hands out are overwritten, and a buffer still held by a worker is recorded. The "
-                "recorded trace is validated by TLC (PipelineTrace.tla) and every consumed payload is compared byte for byte with "
-                "the stand-alone decode + encode of its datagram (sFlow: modulo ColTime). One evaluation = one scheduled run "
-                "(1-4 workers, 12-60 datagrams of mixed sizes from 4 exporters); distinct by (protocol, workers, seed).")
-    ctx.assumptions += ["templates are announced and fully processed before the interleaved data phase, so the templates in force are determinate",
-                        "sFlow's ColTime (wall clock) is masked"]
-    pipeline_model(ctx, thorough)
-    for sw, exp in (("early", "NoUseAfterPut"), ("alias", "PublishedIsOwn"), ("close", "NoPanic")):
-        d = dict(dg="MCDgrams2", bufs="b1, b2, b3, b4")
-        d[sw] = "TRUE" if sw != "close" else "FALSE"
-        ctx.tlc_must_fail("PipelineMC", "dev.cfg", files={"dev.cfg": pipe_cfg(**d)}, expect=exp, workers=16)
+    mirror_only = want == "C16"     # C16: "mirroring never changes what is decoded and published" - the mirror part of this check
+    if not mirror_only:
+        ctx.rule = ("model: Pipeline.tla (receive loop, 2 workers, 3 datagrams (data / template-only / malformed), 3-4 pooled buffers, bounded "
+                    "queues, consumer, shutdown, dynamic-worker retirement; 1.1 M states quick, 28 M thorough): PublishedIsOwn, NoUseAfterPut, AtMostOnce, ExactlyOnceIfData, CountsExact, "
+                    "NoPhantom, NoPanic; the variants 'buffer returned before decoding', 'encode buffer queued without a copy' and 'queue "
+                    "closed without waiting for the receive loop' must each be refuted. Code: the REAL worker functions of the four "
+                    "protocols run on their real queues and receive-buffer pool with GOMAXPROCS(1), every worker held at the hooks of "
+                    "its loop and released by a seeded scheduler that also plays the receive loop and a lazy producer; at every stop the "
+                    "pool is drained, the buffers it hands out are overwritten, and a buffer still held by a worker is recorded. The "
+                    "recorded trace is validated by TLC (PipelineTrace.tla) and every consumed payload is compared byte for byte with "
+                    "the stand-alone decode + encode of its datagram (sFlow: modulo ColTime). One evaluation = one scheduled run "
+                    "(1-4 workers, 12-60 datagrams of mixed sizes from 4 exporters); distinct by (protocol, workers, seed).")
+        ctx.assumptions += ["templates are announced and fully processed before the interleaved data phase, so the templates in force are determinate",
+                            "sFlow's ColTime (wall clock) is masked"]
+        pipeline_model(ctx, thorough)
+        for sw, exp in (("early", "NoUseAfterPut"), ("alias", "PublishedIsOwn"), ("close", "NoPanic")):
+            d = dict(dg="MCDgrams2", bufs="b1, b2, b3, b4")
+            d[sw] = "TRUE" if sw != "close" else "FALSE"
+            ctx.tlc_must_fail("PipelineMC", "dev.cfg", files={"dev.cfg": pipe_cfg(**d)}, expect=exp, workers=16)
     # the mirror branch of the ipfix / sflow workers: copies in pool buffers, mirror queue of capacity 1 (full or not)
     mb = "b1, b2, b3, b4" if thorough else "b1, b2, b3"
     ctx.tlc_model("PipelineMC", "mir.cfg", files={"mir.cfg": pipe_cfg(dg="MCDgrams2", bufs=mb, mirror="TRUE")}, timeout=1800, heap="12g")
@@ -189,10 +191,12 @@ def check(ctx, want="C12"):
                       expect="NoUseAfterPut", workers=16)
     if want == "C12":
         parallel_stage(ctx, thorough)
+    if mirror_only:
+        parallel_stage(ctx, thorough, protos=["ipfix", "sflow"])
     drv = ctx.go_build_test("vflow", ["vflow/pipeline_verif_test.go"])
     jobs = []
     nrun = 10 if thorough else 3
-    for proto in PROTOS:
+    for proto in ([] if mirror_only else PROTOS):
         for k in range(nrun):
             workers = [1, 2, 3, 4][k % 4]
             jobs.append(make_job(ctx, proto, workers, ctx.seed * 1000 + k, 60 if thorough else 24))
